@@ -382,7 +382,7 @@ class System:
                 ind = [i for i in self._g.predecessor_indices(n)]
                 if len(ind) > 1:
                     for i in range(len(ind)):
-                        ind[i] = self._get_index(self._g.attrs["pnames"][n][i])
+                        ind[i] = self._g.attrs["pnames"][n][i]
                 ps[n] = ind
         return ps
 
@@ -480,7 +480,7 @@ class System:
         self._g.attrs["nodes"][comp._params["name"]] = cidx
         self._g.attrs["phase_conf"][comp._params["name"]] = {}
         self._g.attrs["groups"][comp._params["name"]] = group
-        self._g.attrs["pnames"][cidx] = plist
+        self._g.attrs["pnames"][cidx] = pidx
         if comp._component_type == _ComponentTypes.LOAD and rail != "":
             warn(
                 "rail parameter ignored, not applicable on loads",
@@ -688,6 +688,11 @@ class System:
             if childs[eidx] != -1:
                 for c in childs[eidx]:
                     self._g.add_edge(parents[eidx][0], c, None)
+                    pn = [
+                        parents[eidx][0] if i == eidx else i
+                        for i in self._g.attrs["pnames"][c]
+                    ]
+                    self._g.attrs["pnames"][c] = list(dict.fromkeys(pn))
 
     def tree(self, name=""):
         """Print the tree structure of the system.
